@@ -24,7 +24,8 @@ theorem rustcRepr_fields {hs : List Hint} {rr : RRepr} (h : rustcRepr hs = some 
   split at h; · cases h
   split at h; · cases h
   split at h; · cases h
-  rename_i h1 _ _ _ _
+  split at h; · cases h
+  rename_i h1 _ _ _ _ _
   injection h with h
   subst h
   refine ⟨rfl, rfl, rfl, rfl, rfl, ?_⟩
